@@ -384,7 +384,11 @@ func (b *specBuilder) field(full string, m *Message, mpath string, fl *Field) ([
 	}
 	flag := func(l []string) bool { return has(l, typeKey) || has(l, path) }
 	if flag(b.c.Exclude) {
-		return nil, []spec.Excluded{{Go: goName}}, nil
+		ex := spec.Excluded{Go: goName}
+		if fl.Oneof != "" {
+			ex.Oneof = CamelCase(fl.Oneof)
+		}
+		return nil, []spec.Excluded{ex}, nil
 	}
 	a := &spec.Attr{Go: goName, Path: path, TypeKey: typeKey}
 	// name
@@ -488,7 +492,7 @@ func (b *specBuilder) field(full string, m *Message, mpath string, fl *Field) ([
 			}
 			var ex []spec.Excluded
 			for _, e := range sm.Excluded {
-				ex = append(ex, spec.Excluded{Go: e.Go, Embed: append([]spec.EmbedStep{step}, e.Embed...)})
+				ex = append(ex, spec.Excluded{Go: e.Go, Oneof: e.Oneof, Embed: append([]spec.EmbedStep{step}, e.Embed...)})
 			}
 			return sm.Attrs, ex, nil
 		}
